@@ -118,3 +118,40 @@ def _hidesets(ctx):
     ih = ctx.fn(F, "CPreProcessor.in_hideset")
     ok = "macro_expansions[-1].hideset" in norm(ih) and any(isinstance(r, ast.Return) and norm(r.value) == "False" for r in ast.walk(ih))
     ctx.ob("C26.R5", F + ":CPreProcessor.in_hideset", "hidden = member of the hideset of the innermost active expansion; nothing is hidden outside expansions", ok, construct="in-hideset")
+    _lazy(ctx)
+
+
+def _lazy(ctx):
+    """R6: && / || / ?: in #if evaluate their right operands only when needed (C11 6.5.13-15; `#if defined(N) && 100 / N`)"""
+    from .. import sym
+    from ..tables import eq_branches
+    ctx.rule("C26.R6", "#if evaluation: `&&` evaluates its right operand only when the left is non-zero, `||` only when it is zero, `?:` only the selected arm; the result of && / || is 0 or 1", floor=3)
+    ev = ctx.fn(F, "CPreProcessor._eval_tree")
+    site = F + ":CPreProcessor._eval_tree"
+    br = eq_branches(ev, "expr.op")
+    for op, need_true in (("&&", True), ("||", False)):
+        if op not in br:
+            ctx.ob("C26.R6", site, "`%s` has its own (lazy) branch: it must not go through the generic path that evaluates both operands first" % op, False, construct="lazy:" + op)
+            continue
+        body = br[op][1]
+        evb = [c for s in body for c in ast.walk(s) if isinstance(c, ast.Call) and norm(c.func) == "self._eval_tree" and norm(c.args[0]) == "expr.b"]
+        eva = [c for s in body for c in ast.walk(s) if isinstance(c, ast.Call) and norm(c.func) == "self._eval_tree" and norm(c.args[0]) == "expr.a"]
+        ok = len(evb) == 1 and len(eva) == 1
+        if ok:
+            cj = [(" ".join(norm(e).split()), pol) for e, pol in sym.conjuncts(evb[0], ev, {}) if " ".join(norm(e).split()) in ("value", "bool(value)", "value != 0", "value == 0")]
+            want = [("value", need_true), ("bool(value)", need_true), ("value != 0", need_true), ("value == 0", not need_true)]
+            ok = any(c in want for c in cj) and eva[0].lineno < evb[0].lineno
+        ctx.ob("C26.R6", site, "`%s`: expr.b is evaluated only inside the branch taken when expr.a is %s" % (op, "non-zero" if need_true else "zero"), ok, construct="lazy:" + op)
+        norm01 = any(isinstance(s, ast.Assign) and norm(s.value) in ("int(bool(value))", "1 if value else 0", "int(value != 0)") for s in body)
+        ctx.ob("C26.R6", site, "`%s` yields 0 or 1" % op, norm01, construct="bool-result:" + op)
+    tern = [n for n in walk_no_nested(ev) if isinstance(n, ast.If) and "TernaryOperator" in norm(n.test)]
+    ok = False
+    if tern:
+        body = tern[0].body
+        b_ = [c for s in body for c in ast.walk(s) if isinstance(c, ast.Call) and norm(c.func) == "self._eval_tree" and norm(c.args[0]) == "expr.b"]
+        c_ = [c for s in body for c in ast.walk(s) if isinstance(c, ast.Call) and norm(c.func) == "self._eval_tree" and norm(c.args[0]) == "expr.c"]
+        if len(b_) == 1 and len(c_) == 1:
+            cb = [(norm(e), pol) for e, pol in sym.conjuncts(b_[0], ev, {})]
+            cc = [(norm(e), pol) for e, pol in sym.conjuncts(c_[0], ev, {})]
+            ok = ("value", True) in cb and ("value", False) in cc
+    ctx.ob("C26.R6", site, "`?:` evaluates exactly the selected arm", ok, construct="lazy:?:")
